@@ -27,23 +27,32 @@ def escape_char(text):
                .replace('\n', r'\n')
 
 
+_UNESCAPE_CHAR = re.compile(r'\\([\\;,nN])|\r\n')
+_UNESCAPE_CHAR_BYTES = re.compile(br'\\([\\;,nN])|\r\n')
+
+
+def _unescape_char_match(match):
+    char = match.group(1)
+    if char is None or char in 'nN':
+        return '\n'
+    return char
+
+
+def _unescape_char_match_bytes(match):
+    char = match.group(1)
+    if char is None or char in b'nN':
+        return b'\n'
+    return char
+
+
 def unescape_char(text):
     assert isinstance(text, (str, bytes))
-    # NOTE: ORDER MATTERS!
+    # A single pass from left to right, so that an escaped backslash
+    # is never taken for the start of the next escape sequence.
     if isinstance(text, str):
-        return text.replace('\\N', '\\n')\
-                   .replace('\r\n', '\n')\
-                   .replace('\\n', '\n')\
-                   .replace('\\,', ',')\
-                   .replace('\\;', ';')\
-                   .replace('\\\\', '\\')
+        return _UNESCAPE_CHAR.sub(_unescape_char_match, text)
     elif isinstance(text, bytes):
-        return text.replace(b'\\N', b'\\n')\
-                   .replace(b'\r\n', b'\n')\
-                   .replace(b'\\n', b'\n')\
-                   .replace(b'\\,', b',')\
-                   .replace(b'\\;', b';')\
-                   .replace(b'\\\\', b'\\')
+        return _UNESCAPE_CHAR_BYTES.sub(_unescape_char_match_bytes, text)
 
 
 def foldline(line, limit=75, fold_sep='\r\n '):
